@@ -726,6 +726,22 @@ Section Good.
     intros H1 H2 Hb Hp. rewrite !good_parse_rules. apply malformed_ignored_text; try assumption.
     rewrite <- (cfg_good_canon cfg good), <- parse_line_canon. exact Hp.
   Qed.
+  (* only ';' and newline separate: a text without either is ONE line, whatever else it contains
+     (colon, comma, bar, hash, slash, backslash, quotes, blanks, non-ASCII) *)
+  Lemma good_only_separators_separate l : (forall c, In c l -> is_sep c = false) ->
+    parse_rules cfg l = match parse_line cfg l with Some r => [r] | None => [] end.
+  Proof.
+    intros H. rewrite good_parse_rules, (spec_rules_single _ H), (parse_line_canon cfg), (cfg_good_canon cfg good). reflexivity.
+  Qed.
+
+  (* a character that is not a separator never starts a new rule: the lines of a ++ c :: b are those of a and
+     of b with the last line of a, c and the first line of b glued into one *)
+  Lemma good_non_separator_glues a c b : is_sep c = false ->
+    (forall x, In x a -> is_sep x = false) -> (forall x, In x b -> is_sep x = false) ->
+    parse_rules cfg (a ++ c :: b) = match parse_line cfg (a ++ c :: b) with Some r => [r] | None => [] end.
+  Proof.
+    intros Hc Ha Hb. apply good_only_separators_separate. intros x Hx. apply in_app_or in Hx as [Hx|[<-|Hx]]; auto.
+  Qed.
 End Good.
 
 (* ------------------------------------------------------------------ the line grammar *)
@@ -979,3 +995,96 @@ Proof.
   - intros Hn. rewrite (cfg_good_canon cfg H). apply parse_line_rejects_iff. intros r Hr.
     apply (Hn r). apply LineOK_canon. rewrite (cfg_good_canon cfg H). exact Hr.
 Qed.
+
+(* ------------------------------------------------------------------ a name with punctuation is one rule *)
+Lemma std_value_nosep v e : In (v, e) (values std_cfg) -> forall c, In c v -> is_sep c = false.
+Proof.
+  cbn. intros [E|[E|[]]]; injection E as <- <-; intros c Hc; cbn in Hc;
+    repeat (destruct Hc as [<-|Hc]; [reflexivity|]); contradiction.
+Qed.
+Lemma std_suffix_solid name t : In (name, t) (suffixes std_cfg) -> solid name /\ ~ In 59 name.
+Proof.
+  cbn. intros [E|[E|[E|[E|[]]]]]; injection E as <- <-; (split; [intros x Hx|intros Hx]); cbn in Hx;
+    repeat (destruct Hx as [Hx|Hx]; [first [subst x; reflexivity|discriminate]|]); contradiction.
+Qed.
+Lemma solid_nosemi_nosep n : solid n -> ~ In 59 n -> forall c, In c n -> is_sep c = false.
+Proof.
+  intros Hs H59 c Hc. unfold is_sep. destruct (N.eqb_spec c 59) as [->|_]; [contradiction|].
+  destruct (N.eqb_spec c 10) as [->|_]; [|reflexivity]. specialize (Hs _ Hc). discriminate.
+Qed.
+
+(* the rule text  <name>=<value>  with a blank-free name without ';' that has no typed reading is exactly the one
+   untyped rule for that name: every other character (colon, comma, bar, hash, slash, backslash, both quotes, equals sign, dot,
+   non-ASCII) is part of the name *)
+Lemma single_rule_text n v e : n <> [] -> solid n -> ~ In 59 n ->
+  (forall p sfx t, In (sfx, t) (suffixes std_cfg) -> p <> [] -> n <> p ++ 46 :: sfx) ->
+  In (v, e) (values std_cfg) ->
+  spec_rules (n ++ 61 :: v) = [{| pat := n; rtype := None; enabled := e |}].
+Proof.
+  intros Hne Hs H59 Hno Hv. rewrite spec_rules_single.
+  - replace (n ++ 61 :: v) with ([] ++ n ++ [] ++ 61 :: [] ++ v ++ []) by (cbn; rewrite app_nil_r; reflexivity).
+    rewrite (parse_line_complete _ {| pat := n; rtype := None; enabled := e |}); [reflexivity|].
+    apply LineUntyped; try reflexivity; assumption.
+  - intros c Hc. apply in_app_or in Hc as [Hc|[<-|Hc]]; [exact (solid_nosemi_nosep _ Hs H59 _ Hc)|reflexivity|exact (std_value_nosep _ _ Hv _ Hc)].
+Qed.
+(* ... and  <name>.<suffix>=<value>  the one rule for that name typed by the suffix *)
+Lemma single_typed_rule_text n sfx t v e : n <> [] -> solid n -> ~ In 59 n ->
+  In (sfx, t) (suffixes std_cfg) -> In (v, e) (values std_cfg) ->
+  spec_rules (n ++ 46 :: sfx ++ 61 :: v) = [{| pat := n; rtype := Some t; enabled := e |}].
+Proof.
+  intros Hne Hs H59 Hin Hv. destruct (std_suffix_solid _ _ Hin) as [Hss Hs59]. rewrite spec_rules_single.
+  - replace (n ++ 46 :: sfx ++ 61 :: v) with ([] ++ (n ++ 46 :: sfx) ++ [] ++ 61 :: [] ++ v ++ [])
+      by (cbn; rewrite app_nil_r, <- app_assoc; reflexivity).
+    rewrite (parse_line_complete _ {| pat := n; rtype := Some t; enabled := e |}); [reflexivity|].
+    apply LineTyped; try reflexivity; try assumption.
+    intros x Hx. apply in_app_or in Hx as [Hx|[<-|Hx]]; [exact (Hs _ Hx)|reflexivity|exact (Hss _ Hx)].
+  - intros c Hc. apply in_app_or in Hc as [Hc|[<-|Hc]]; [exact (solid_nosemi_nosep _ Hs H59 _ Hc)|reflexivity|].
+    apply in_app_or in Hc as [Hc|[<-|Hc]]; [exact (solid_nosemi_nosep _ Hss Hs59 _ Hc)|reflexivity|exact (std_value_nosep _ _ Hv _ Hc)].
+Qed.
+
+Lemma spec_single_rule_decides r c t :
+  spec_decision [r] c t = if glob 42 (pat r) c && concerns t r then enabled r else true.
+Proof.
+  unfold spec_decision, spec_matches, rule_matches, pattern_matches, concerns. cbn [rev app find].
+  rewrite iter_match_glob. destruct (glob 42 (pat r) c && _); reflexivity.
+Qed.
+
+Section GoodNames.
+  Variable cfg : cat_cfg.
+  Hypothesis good : cfg_goodb cfg = true.
+  Let Ecfg : canon cfg = std_cfg := cfg_good_canon cfg good.
+  Lemma good_suffixes : suffixes cfg = suffixes std_cfg.
+  Proof. change (suffixes cfg) with (suffixes (canon cfg)). rewrite Ecfg. reflexivity. Qed.
+  Lemma good_values : values cfg = values std_cfg.
+  Proof. change (values cfg) with (values (canon cfg)). rewrite Ecfg. reflexivity. Qed.
+
+  Lemma good_single_rule_text n v e : n <> [] -> solid n -> ~ In 59 n ->
+    (forall p sfx t, In (sfx, t) (suffixes cfg) -> p <> [] -> n <> p ++ 46 :: sfx) ->
+    In (v, e) (values cfg) ->
+    parse_rules cfg (n ++ 61 :: v) = [{| pat := n; rtype := None; enabled := e |}].
+  Proof. rewrite good_suffixes, good_values, (good_parse_rules cfg good). apply single_rule_text. Qed.
+
+  Lemma good_single_typed_rule_text n sfx t v e : n <> [] -> solid n -> ~ In 59 n ->
+    In (sfx, t) (suffixes cfg) -> In (v, e) (values cfg) ->
+    parse_rules cfg (n ++ 46 :: sfx ++ 61 :: v) = [{| pat := n; rtype := Some t; enabled := e |}].
+  Proof. rewrite good_suffixes, good_values, (good_parse_rules cfg good). apply single_typed_rule_text. Qed.
+
+  (* the verdicts of that one-rule filter: the categories the name globs get the rule's value, all others pass *)
+  Lemma good_single_rule_decides n v e : n <> [] -> solid n -> ~ In 59 n ->
+    (forall p sfx t, In (sfx, t) (suffixes cfg) -> p <> [] -> n <> p ++ 46 :: sfx) ->
+    In (v, e) (values cfg) ->
+    forall c t, category_filter cfg (n ++ 61 :: v) c t = if glob 42 n c then e else true.
+  Proof.
+    intros H1 H2 H3 H4 H5 c t. rewrite (model_is_spec cfg _ _ _ good). unfold spec_verdict.
+    rewrite <- (good_parse_rules cfg good), (good_single_rule_text n v e H1 H2 H3 H4 H5), spec_single_rule_decides.
+    cbn [pat enabled concerns rtype]. rewrite andb_true_r. reflexivity.
+  Qed.
+  Lemma good_single_typed_rule_decides n sfx t v e : n <> [] -> solid n -> ~ In 59 n ->
+    In (sfx, t) (suffixes cfg) -> In (v, e) (values cfg) ->
+    forall c t', category_filter cfg (n ++ 46 :: sfx ++ 61 :: v) c t' = if glob 42 n c && mtype_eqb t t' then e else true.
+  Proof.
+    intros H1 H2 H3 H4 H5 c t'. rewrite (model_is_spec cfg _ _ _ good). unfold spec_verdict.
+    rewrite <- (good_parse_rules cfg good), (good_single_typed_rule_text n sfx t v e H1 H2 H3 H4 H5), spec_single_rule_decides.
+    reflexivity.
+  Qed.
+End GoodNames.
